@@ -27,6 +27,8 @@ def gen(repo):
     out.append("Definition registry_tags : list (bytes * Z) := [" + "; ".join(f"({s(k)}, {z(v)})" for k, v in reg["tags"].items()) + "].\n")
     out.append("Definition registry_hash_len : list (bytes * Z) := [" + "; ".join(
         f"({s(k)}, {z(v)})" for k, v in reg["hash_output_bytes"].items()) + "].\n")
+    out.append("Definition registry_hash : list (bytes * (bytes * Z)) := [" + "; ".join(
+        f"({s(k)}, ({s(reg['hash_primitive'][k])}, {z(v)}))" for k, v in reg["hash_output_bytes"].items()) + "].\n")
     return "\n".join(out)
 
 
